@@ -58,12 +58,18 @@ fn c19_quantity_abs_value() {
     assert!(r.value == ieee_abs(a.value));
     reach!();
 }
-//@ob fn="<Quantity as PartialOrd>::partial_cmp / PartialEq" at=src/dimensions.rs:845 clause="ordering and equality of equally dimensioned quantities are those of the raw f32 values, in this configuration"
+//@ob fn="<Quantity as PartialOrd>::partial_cmp / PartialEq" at=src/dimensions.rs:845 clause="ordering and equality of equally dimensioned quantities (partial_cmp, ==, !=, <, <=, >, >=; NaN included) are those of the raw f32 values, in this configuration"
 #[kani::proof]
 fn c19_quantity_compare_values() {
     let (a, b) = pair_same_unit();
     assert!(a.partial_cmp(&b) == a.value.partial_cmp(&b.value));
     assert!((a == b) == (a.value == b.value));
+    // the four operators and `!=` themselves (they are provided methods that an impl may override), NaN included
+    assert!((a < b) == (a.value < b.value));
+    assert!((a <= b) == (a.value <= b.value));
+    assert!((a > b) == (a.value > b.value));
+    assert!((a >= b) == (a.value >= b.value));
+    assert!((a != b) == (a.value != b.value));
     reach!();
 }
 //@ob fn="<Quantity as From<Time>>::from / From<DimensionlessInteger>" at=src/dimensions.rs:150 clause="Time -> Quantity is (ns as f32)/1e9 and DimensionlessInteger -> Quantity is n as f32, in this configuration"
